@@ -46,7 +46,12 @@ def _impl(tier, seed, search):
     def mkobj(c, m, int_first=False):
         cls, one = CL[c]
         vals = [one() for _ in range(m)]
-        if int_first: vals[0] = int_member(c)
+        if int_first == 'drift' and c in ('SO2', 'SE2', 'SO3', 'SE3'):
+            # values as the library's own operators produce them after a long computation: valid to ~1e-14, not to the constructor's 100 eps
+            drifted = [(((cls(v) ** -3) ** 4) ** 5) for v in vals]
+            X = cls(); X.data = [np.array(d_.A, float) for d_ in drifted]
+            return X, drifted
+        if int_first is True: vals[0] = int_member(c)
         X = cls(vals[0]) if m == 1 else cls(vals)
         return X, [cls(v) for v in vals]
     def val(x):
@@ -137,8 +142,9 @@ def _impl(tier, seed, search):
                         gi = got[i]
                         same = (gi == w) if isinstance(w, bool) or isinstance(gi, bool) else (np.shape(gi) == np.shape(w) and np.allclose(gi, w, rtol=1e-12, atol=1e-12))
                         if not same: L.fail(f'binop-element:{c}:{opn}:MxM', f'X {opn} X for one {c} object holding {m} values: element {i} is not the single-valued result', inp); break
-            for int_first in (False, True):
-                if int_first and m == 1: continue
+            for int_first in (False, True, 'drift'):
+                if int_first is True and m == 1: continue
+                if int_first == 'drift' and (c not in ('SO2', 'SE2', 'SO3', 'SE3') or m not in (1, 3)): continue
                 # power and unary / per-value methods on an m-valued object (second pass: the first value has integer entries / dtype)
                 X, xs = mkobj(c, m, int_first)
                 inp = dict(cls=c, m=m, first_value_integer=int_first)
@@ -187,14 +193,15 @@ def _impl(tier, seed, search):
                     else:
                         A = np.asarray(res, float)
                         G = None
-                        if A.ndim >= 1 and A.shape[0] == m: G = [A[i].ravel() for i in range(m)]
-                        if (G is None or any(gi.shape != wi.shape or not np.allclose(gi, wi, atol=1e-12) for gi, wi in zip(G, W))) and A.ndim >= 2 and A.shape[-1] == m:
+                        if mn == '*point' and A.ndim == 2 and A.shape[1] == m: G = [A[:, i].ravel() for i in range(m)]       # documented layout: one column per value
+                        elif A.ndim >= 1 and A.shape[0] == m: G = [A[i].ravel() for i in range(m)]
+                        if (G is None or any(gi.shape != wi.shape or not np.allclose(gi, wi, atol=1e-12, equal_nan=True) for gi, wi in zip(G, W))) and A.ndim >= 2 and A.shape[-1] == m:
                             G2 = [A[..., i].ravel() for i in range(m)]
-                            if all(gi.shape == wi.shape and np.allclose(gi, wi, atol=1e-12) for gi, wi in zip(G2, W)): G = G2
+                            if all(gi.shape == wi.shape and np.allclose(gi, wi, atol=1e-12, equal_nan=True) for gi, wi in zip(G2, W)): G = G2
                     if G is None or len(G) != m:
                         L.fail(f'per-value-count:{c}.{mn}', f'{c}.{mn} on {m} values does not return {m} results', dict(inp, method=mn), observed=repr(res)[:120]); continue
                     for i in range(m):
-                        if G[i].shape != W[i].shape or not np.allclose(G[i], W[i], rtol=1e-12, atol=1e-12):
+                        if G[i].shape != W[i].shape or not np.allclose(G[i], W[i], rtol=1e-12, atol=1e-12, equal_nan=True):
                             L.fail(f'per-value-element:{c}.{mn}', f'{c}.{mn} on {m} values: result {i} differs from the method applied to element {i}', dict(inp, method=mn), observed=repr(G[i])[:100], required=repr(W[i])[:100])
                             break
     # == and != on sequences decide each pair exactly as the single-valued operator does — also for nearly equal values
